@@ -542,6 +542,11 @@ fn run_queries(
             // out of the property's scope (a conjunct def with an undefined part): only the model
             // correspondence below is checked; what the code does is counted
             out.stat(if got == want { "scope_conjunct_undefined_part_reflected" } else { "scope_conjunct_undefined_part_not_reflected" });
+            // in scope whatever the parts are: nothing is reflected beyond the statement's reflection, in
+            // particular no conjunct one of whose parts is not a marker tag of the record
+            if let Some(extra) = got.iter().find(|g| !want.contains(*g)) {
+                out.fail("oracle_reflect_extra", format!("record {r:?}: reflect yields {extra:?}, which the statement's reflection {want:?} does not contain"));
+            }
             rreplies.push(format!(
                 "defs={}|fits={}",
                 show(&got),
@@ -668,9 +673,14 @@ fn gen_graph_once(rng: &mut Rng, max_defs: u64) -> GenGraph {
         let plain: Vec<String> = defined.iter().filter(|d| !d.contains('-') && !d.contains(':')).cloned().collect();
         let kind = rng.below(100);
         let name = if kind < 14 && plain.len() >= 2 {
-            // conjunct of 2-3 DEFINED parts
+            // conjunct of 2-3 defined parts; now and then one part (first, middle or last) has no def
             let k = 2 + rng.below(2) as usize;
-            (0..k).map(|_| rng.pick(&plain).clone()).collect::<Vec<_>>().join("-")
+            let mut parts: Vec<String> = (0..k).map(|_| rng.pick(&plain).clone()).collect();
+            if rng.chance(1, 6) {
+                let at = rng.below(k as u64) as usize;
+                parts[at] = rng.pick(&["u0", "u1", "undefinedThing", "nodef"]).to_string();
+            }
+            parts.join("-")
         } else if kind < 24 {
             let f = *rng.pick(&["lib", "filetype", "unit", "ghost"]);
             format!("{f}:{}", rng.pick(WORDS))
@@ -797,6 +807,25 @@ pub fn generate(ctx: &mut Ctx) {
         write_recs(&[vec![("a".to_string(), true), ("b".to_string(), true)], vec![("b".to_string(), true)]], &mut t);
         t.push("b".into());
         write_names(&["a".to_string(), "a-b".to_string(), "b".to_string()], &mut t);
+        ctx.case("scope:conjunct_undefined_part", &t.join(" "));
+    }
+    for (conj, defs, recs) in [
+        ("b-a", vec!["b"], vec![vec!["b"], vec!["a", "b"], vec!["a"]]),
+        ("b-a-c", vec!["b", "c"], vec![vec!["b", "c"], vec!["b"], vec!["a", "b", "c"], vec!["c"]]),
+        ("b-c-a", vec!["b", "c"], vec![vec!["b", "c"], vec!["b"], vec!["a", "b", "c"]]),
+    ] {
+        let mut rows: Vec<RowSpec> = defs.iter().map(|d| RowSpec::plain(d, vec![])).collect();
+        rows.push(RowSpec::plain(conj, vec![Some(defs[0].to_string())]));
+        let names: Vec<String> = ["a", "b", "c", conj].iter().map(|x| x.to_string()).collect();
+        let mut t = vec!["g".to_string()];
+        write_rows(&rows, &mut t);
+        t.push("q".into());
+        write_names(&names, &mut t);
+        t.push("r".into());
+        let rs: Vec<RecSpec> = recs.iter().map(|r| r.iter().map(|k| (k.to_string(), true)).collect()).collect();
+        write_recs(&rs, &mut t);
+        t.push("b".into());
+        write_names(&names, &mut t);
         ctx.case("scope:conjunct_undefined_part", &t.join(" "));
     }
     let n = ctx.n(220, 3000);
@@ -935,7 +964,12 @@ pub fn exec(label: &str, input: &str, out: &mut CaseOut) {
             out.nontrivial = o.is.values().any(|v| !v.is_empty());
             out.stat(&format!("defs_{}", match o.is.len() { 0 => "0", 1..=5 => "1-5", 6..=15 => "6-15", 16..=30 => "16-30", _ => "31+" }));
             let ns = build_ns(&rows);
-            let in_scope = !label.starts_with("scope:");
+            // a conjunct def with a part that has no def: the positive half of the reflection rule is left open
+            let parts_defined = o.is.keys().filter(|c| c.contains('-')).all(|c| c.split('-').all(|p| o.defined(p)));
+            let in_scope = !label.starts_with("scope:") && parts_defined;
+            if !parts_defined {
+                out.stat("graph_with_conjunct_of_undefined_part");
+            }
             run_queries(&rows, ns, &queries, &queries, &recs, &bases, in_scope, out);
             unsafe { free_ns(ns) };
         }
